@@ -316,7 +316,9 @@ func checkC15(c c15Case) error {
 func c15Dir(name string) (leave func(), err error) {
 	cwd := filepath.Join(outDir(), name)
 	os.MkdirAll(filepath.Join(cwd, "d"), 0o755)
-	for _, f := range []string{"a", "b", "ab", "*", "?", "[", "a b", "é", "~", "-", ".", "d/a", "$a", `\`, "a\\"} {
+	for _, f := range []string{"a", "b", "ab", "*", "?", "[", "a b", "é", "~", "-", ".", "d/a", "$a", `\`, "a\\",
+		// names that are not valid UTF-8: a decoder reads each of their bytes as U+FFFD
+		"\xff", "a\xffb", "\x80", "\xff\xff"} {
 		os.WriteFile(filepath.Join(cwd, f), nil, 0o644)
 	}
 	wd, _ := os.Getwd()
@@ -478,7 +480,7 @@ func init() {
 
 var c15Modes = []uint{0, uint(interp.Arith), uint(interp.Assign), uint(interp.Literal), uint(interp.Pattern), uint(interp.Quote), uint(interp.Assign | interp.Quote)}
 
-var c15Alpha = []string{"'", `"`, `\`, "$", "`", "*", "?", "[", "]", "~", "#", "&", ";", "|", "<", ">", "(", ")", "{", "}", "!", "=", " ", "\t", "\n", "a", "b", "/", ":", "-", ".", "é", "\r", "^"}
+var c15Alpha = []string{"'", `"`, `\`, "$", "`", "*", "?", "[", "]", "~", "#", "&", ";", "|", "<", ">", "(", ")", "{", "}", "!", "=", " ", "\t", "\n", "a", "b", "/", ":", "-", ".", "é", "\r", "^", "\uFFFD"}
 
 func TestC15(t *testing.T) {
 	st := newStats("C15")
